@@ -6,6 +6,12 @@ BASELINE = "cd /repo && /venv/bin/python -m pytest -ra -q -p no:cacheprovider --
 
 # id -> (category, technique, level text, level note, design ref)
 CHECKS = {
+ "C01": ("exploration", "Hypothesis-drawn mutation recipes (byte-level, container-aware ZIP/OLE2, per-format token dictionaries, cross-routing, degenerate inputs) over fixture and generated seeds, each case in a forked worker under rlimits; atheris coverage-guided fuzzing per extractor in the thorough tier",
+         "Every seed of every format through all entry points (extractor, read_file, ZIP member, e-mail attachment, CLI x 4 modes) plus one cross-routing each (enumerated); thousands of drawn mutants per run through the "
+         "extractor and a third of them through all entry points. Oracle: results or ExtractionError only, worker not killed within 60 s CPU / 3 GiB, CLI exit/stdout/stderr contract with a strict UTF-8 stdout. "
+         "Thorough: 50x the cases and one atheris campaign per extractor (seeded and empty corpus) whose artifacts are re-judged by the same forked oracle.",
+         "Sampling: absence of a wrong exception type or an unbounded loop is not proved; termination is a CPU budget. Coverage guidance only in the thorough tier (a mutant that narrows the mbox wrapper is killed there, "
+         "not in the quick tier).", "DESIGN.md §4 C01"),
  "C20": ("exploration", "exhaustive table enumeration + Hypothesis differential testing against an independent reference AES",
          "All byte tables, ShiftRows positions and a GF(2) basis of MixColumns are enumerated completely; FIPS-197/SP 800-38A known answers; "
          "thousands of Hypothesis-drawn operation sequences (shared key pool, so the round-key cache is exercised) are compared with an independently "
